@@ -20,6 +20,10 @@ IW_SOFT_INLINE iwrc _to_effective_key(
   iwdb_flags_t dbflg = db->dbflg;
   // Keys compound will be processed at lower levels at `addkv` routines
   okey->compound = key->compound;
+  if ((dbflg & IWDB_COMPOUND_KEYS) && key->compound < 0) {
+    // the variable length encoding of the compound part has no form for a negative number
+    return IW_ERROR_INVALID_ARGS;
+  }
   if (dbflg & IWDB_VNUM64_KEYS) {
     unsigned len;
     if (key->size == 8) {
